@@ -500,7 +500,7 @@ func (ref *Node) DoNewChild(r node.ChildRequest) (node.Node, error) {
 	if err = ref.writeValue(r.Meta, obj); err != nil {
 		return nil, err
 	}
-	if meta.IsList(r.Meta) && r.Selection.Path.Meta != r.Meta {
+	if meta.IsList(r.Meta) && (r.Selection.Path.Meta != r.Meta || r.Selection.InsideList) {
 		return ref.NewList(r.Meta, obj.Interface(), ref.onListUpdate(r.Meta.(*meta.List)))
 	}
 
@@ -546,7 +546,7 @@ func (ref *Node) DoGetChild(r node.ChildRequest) (node.Node, error) {
 		// a list whose last entry was deleted does not exist any more
 		return nil, nil
 	}
-	if meta.IsList(r.Meta) && r.Selection.Path.Meta != r.Meta {
+	if meta.IsList(r.Meta) && (r.Selection.Path.Meta != r.Meta || r.Selection.InsideList) {
 		return ref.NewList(r.Meta, obj.Interface(), ref.onListUpdate(r.Meta.(*meta.List)))
 	}
 	return ref.New(r.Meta, obj.Interface())
